@@ -16,7 +16,8 @@ RULE = ("(a) exhaustive: every byte 0..255 as a one-character input (as str wher
         "as_encoded_array(x, target) and change_encoding(x, target), on contiguous arrays and on row-reordered views; (d) histories of 2..6 "
         "re-targetings in one process between alphabets that share a leading prefix (alphabets made for the case, and the predefined DNA/RNA ones), "
         "interleaved with encodes of a few recurring plain strings whose returned arrays the caller then assigns into, "
-        "so that what an earlier call leaves behind cannot change a later call. "
+        "so that what an earlier call leaves behind cannot change a later call; (e) Python lists of 1..5 rows that are already encoded, each row with "
+        "an alphabet of a small group (same letters in another order, or one extending another), handed to as_encoded_array with and without a target. "
         "Oracle: a Python model of each alphabet (a character is accepted iff its upper-case form, for letters only, is a member). Accepted "
         "input decodes to the upper-cased original row for row with the ragged shape unchanged; rejected input raises EncodingError; "
         "re-targeting yields data whose text equals the source text or raises. "
@@ -26,9 +27,10 @@ ASSUMPTIONS = [
     "StringEncoding is checked for membership and round trip only (hash collisions of the 31-bit polynomial hash are outside what random search can reach).",
 ]
 REQUIRED_CLASSES = ["byte-exhaustive", "foreign-char", "mixed-case", "ragged-with-empty-row", "pair-retarget", "pair-change_encoding",
-                    "view-input", "string-encoding", "retarget-history", "history-prefix-then-beyond", "history-encode-edit-encode-again", "foreign-char-beyond-one-byte"]
-BOUNDS = {"quick": "(a) complete: 256 bytes x 10 encodings x 2 routes; (b) 1500 strings per alphabet; (c) all 90 ordered pairs x 150 strings; (d) 6000 histories",
-          "thorough": "(a) complete; (b) 15000 per alphabet; (c) all pairs x 1500 strings; (d) 240000 histories"}
+                    "view-input", "string-encoding", "retarget-history", "history-prefix-then-beyond", "history-encode-edit-encode-again", "foreign-char-beyond-one-byte",
+                    "list-of-rows-in-several-encodings", "list-of-rows-same-letters-other-order", "list-of-rows-in-one-encoding"]
+BOUNDS = {"quick": "(a) complete: 256 bytes x 10 encodings x 2 routes; (b) 1500 strings per alphabet; (c) all 90 ordered pairs x 150 strings; (d) 6000 histories; (e) 1500 row lists",
+          "thorough": "(a) complete; (b) 15000 per alphabet; (c) all pairs x 1500 strings; (d) 240000 histories; (e) 15000 row lists"}
 BUDGET_S = {"quick": 150, "thorough": 900}
 ALL_EXHAUSTIVE = False
 
@@ -101,6 +103,12 @@ def classify(case):
                     inside = lambda st_: all(ch in A[:p] for r in st_["rows"] for ch in r.upper())
                     if inside(a) and not inside(b):
                         cl.append("history-prefix-then-beyond")
+    elif kind == "rowlist":
+        alphas = {r["alpha"] for r in case["rows"]}
+        nontrivial = len(alphas) >= 2
+        cl.append("list-of-rows-in-several-encodings" if nontrivial else "list-of-rows-in-one-encoding")
+        if nontrivial and len({frozenset(letters_of(a)) for a in alphas}) < len(alphas):
+            cl.append("list-of-rows-same-letters-other-order")
     elif kind == "labels":
         cl.append("string-encoding")
         nontrivial = any(x not in case["labels"] for x in case["query"])
@@ -247,6 +255,23 @@ def check(case, stats=None):
                 fails[0].detail["earlier_steps"] = [{"pair": f"{s['src']}->{s['dst']}", "rows": s["rows"], "how": s["how"]} for s in case["steps"][:i]]
                 return fails
         return []
+    if kind == "rowlist":
+        # a Python list of rows that are already encoded, each with its own alphabet, handed to as_encoded_array (with or without a target)
+        from bionumpy.encoded_array import as_encoded_array
+        arrays = [as_encoded_array(r["text"], enc_of(r["alpha"])) for r in case["rows"]]
+        want = [r["text"].upper() for r in case["rows"]]
+        try:
+            res = as_encoded_array(arrays, enc_of(case["target"])) if case.get("target") else as_encoded_array(arrays)
+        except Exception:
+            if stats is not None:
+                stats.raised_allowed["rowlist"] += 1
+            return []
+        got = _decode_rows(res)
+        if isinstance(got, str):
+            got, want = "".join(got), "".join(want)
+        if got != want:
+            return [Failure("C06:list-of-encoded-rows-changes-text", {"rows": case["rows"], "target": case.get("target"), "result_text": got})]
+        return []
     if kind == "labels":
         from bionumpy.encodings.string_encodings import StringEncoding
         labels, query = case["labels"], case["query"]
@@ -323,6 +348,31 @@ def pair_case(draw, src, dst):
     return case
 
 
+ROWLIST_GROUPS = [["ACGT", "ACTG", "ACGTn", "ACTGn", "ACUG"], ["ACGT", "ACTG", "AminoAcid", "Bam"], ["custom:XYZ", "custom:ZYX", "custom:XYZW", "custom:YXZ"]]
+
+
+@st.composite
+def rowlist_case(draw):
+    """1..5 rows, each encoded with an alphabet of a small group (alphabets with the same letters in another order, or one extending another),
+    over letters that every alphabet of the group has."""
+    group = draw(st.sampled_from(ROWLIST_GROUPS))
+    common = sorted(set.intersection(*[set(letters_of(a)) for a in group]))
+    n = draw(st.integers(1, 5))
+    one = draw(st.integers(0, 3)) == 0
+    a0 = draw(st.sampled_from(group))
+    rows = []
+    for _ in range(n):
+        alpha = a0 if one else draw(st.sampled_from(group))
+        letters = common if draw(st.booleans()) else letters_of(alpha)
+        rows.append({"text": draw(st.text(alphabet=letters, min_size=0, max_size=8)), "alpha": alpha})
+    if all(r["text"] == "" for r in rows):
+        rows[0]["text"] = common[-1] * 2
+    case = {"kind": "rowlist", "rows": rows}
+    if draw(st.booleans()):
+        case["target"] = draw(st.sampled_from(group))
+    return case
+
+
 @st.composite
 def history_case(draw):
     """2..6 re-targetings in a row between a few alphabets that share a leading prefix. Half of the cases use alphabets made for the case
@@ -388,6 +438,11 @@ def task_history(stats, known_open, n, seed):
     core.run_hypothesis(sys.modules[__name__], history_case(), stats, known_open, max_examples=n, seed=seed)
 
 
+def task_rowlist(stats, known_open, n, seed):
+    import sys
+    core.run_hypothesis(sys.modules[__name__], rowlist_case(), stats, known_open, max_examples=n, seed=seed)
+
+
 def task_labels(stats, known_open, n, seed):
     import sys
     core.run_hypothesis(sys.modules[__name__], labels_case(), stats, known_open, max_examples=n, seed=seed)
@@ -400,6 +455,7 @@ def tasks(tier, seed):
         out.append(("task_encode", dict(alpha=a, n=n_enc, seed=seed * 1000 + i)))
         out.append(("task_pairs", dict(src=a, n=n_pair, seed=seed * 1000 + 100 + i)))
     out.append(("task_labels", dict(n=n_enc, seed=seed * 1000 + 999)))
+    out.append(("task_rowlist", dict(n=n_enc, seed=seed * 1000 + 998)))
     for j in range(4 if tier == "quick" else 16):
         out.append(("task_history", dict(n=n_enc, seed=seed * 1000 + 800 + j)))
     return out
